@@ -684,3 +684,233 @@ func genC04(cw *caseWriter, seed uint64, tier string) {
 		}
 	}
 }
+
+// ---- C02 / C16 -------------------------------------------------------------------------------
+
+// emitRoundTrip: untemplated read-then-write, then the output fed back once more.
+//
+//	rtrip \t C02 \t <hex input> \t <in-domain 0|1> \t <ext> \t <impl first> \t <impl second|->
+func emitRoundTrip(cw *caseWriter, line []byte, inDomain bool) {
+	w, err, pan := runLine(jsonline.NewTemplate(), jsonline.NewTemplate(), line)
+	first := lineOutcome(w, err, pan)
+	second := "-"
+	if err == nil && pan == "" {
+		out := w.all()
+		if len(out) > 0 && out[len(out)-1] == '\n' {
+			w2, err2, pan2 := runLine(jsonline.NewTemplate(), jsonline.NewTemplate(), out[:len(out)-1])
+			second = lineOutcome(w2, err2, pan2)
+		}
+	}
+	ext := map[string]string{}
+	dom := "0"
+	if inDomain {
+		dom = "1"
+	}
+	cw.count("rtrip:" + strings.SplitN(first, " ", 2)[0] + ":dom" + dom)
+	cw.emit("rtrip "+string(line), inDomain, "rtrip", "C02", hxs(string(line)), dom, extStr(ext), first, second)
+}
+
+type jgen struct {
+	r     *rng
+	depth int
+}
+
+var numberSpellings = []string{"0", "-0", "1", "-1", "12", "1.5", "-2.25", "1E+2", "1e2", "1e-2", "0.10", "0.0", "1.0e0", "123456789012345678901234567890", "1e-400", "1e400", "-0.0e-0", "9223372036854775808", "0.1E1", "5e-324"}
+
+func (g *jgen) str() string {
+	classes := []string{"a", "b c", "é", "日本", "\U0001F600", "\\u00e9", "\\ud83d\\ude00", "\\n", "\\t", "\\\"", "\\\\", "\\/", "\\b\\f\\r", "\\u0000", "\\u001f", "<>&", "\\u2028", "\u2028", "\\u007f", "\x7f", "'", "`", " ", ""}
+	var sb strings.Builder
+	for k := g.r.intn(4); k > 0; k-- {
+		sb.WriteString(pick(g.r, classes))
+	}
+	return `"` + sb.String() + `"`
+}
+
+func (g *jgen) ws() string {
+	return pick(g.r, []string{"", "", "", " ", "\t", "  ", "\r"})
+}
+
+func (g *jgen) value(d int) string {
+	n := 8
+	if d >= g.depth {
+		n = 5
+	}
+	switch g.r.intn(n) {
+	case 0:
+		return "null"
+	case 1:
+		return pick(g.r, []string{"true", "false"})
+	case 2, 3:
+		return pick(g.r, numberSpellings)
+	case 4:
+		return g.str()
+	case 5:
+		k := g.r.intn(4)
+		var parts []string
+		for i := 0; i < k; i++ {
+			parts = append(parts, g.ws()+g.value(d+1)+g.ws())
+		}
+		if k == 0 {
+			return "[" + g.ws() + "]"
+		}
+		return "[" + strings.Join(parts, ",") + "]"
+	default:
+		return g.object(d + 1)
+	}
+}
+
+func (g *jgen) object(d int) string {
+	k := g.r.intn(5)
+	if k == 0 {
+		return "{" + g.ws() + "}"
+	}
+	keys := []string{"zz", "aa", "m", "", "é", "a.b", "k\\n", "\\u0041", "x y", "0", "\U0001F600"}
+	for i := len(keys) - 1; i > 0; i-- {
+		j := g.r.intn(i + 1)
+		keys[i], keys[j] = keys[j], keys[i]
+	}
+	var parts []string
+	for i := 0; i < k; i++ {
+		parts = append(parts, g.ws()+`"`+keys[i]+`"`+g.ws()+":"+g.ws()+g.value(d)+g.ws())
+	}
+	return "{" + strings.Join(parts, ",") + "}"
+}
+
+func genC02(cw *caseWriter, seed uint64, tier string) {
+	r := newRng(seed)
+	g := &jgen{r: r, depth: 4}
+	fixed := []string{`{}`, ` { } `, `{"a":1}`, `{"b":{"q":1,"a":[{"z":1,"y":{"x":[]}}]},"a":null}`, `{"n":[-0,1E+2,0.10,123456789012345678901234567890,1e-400]}`,
+		`{"s":"\u00e9\ud83d\ude00\n\t\"\\\/\b\f\r"}`, `{"":{"":{"":{}}}}`, `{"a":[[],[[]],{}]}`, `{"k":"<>&\u2028"}`}
+	for _, f := range fixed {
+		emitRoundTrip(cw, []byte(f), true)
+	}
+	// out of domain: duplicate names, lone surrogates, invalid UTF-8
+	for _, f := range []string{`{"a":1,"a":2}`, `{"a":{"x":1,"x":{"y":2}}}`, `{"s":"\ud800"}`, "{\"s\":\"\xff\"}", `{"s":"\udc00\ud800"}`} {
+		emitRoundTrip(cw, []byte(f), false)
+	}
+	// nesting depth 64
+	emitRoundTrip(cw, []byte(strings.Repeat(`{"a":[`, 64)+`1`+strings.Repeat(`]}`, 64)), true)
+	n := 5000
+	if tier == "thorough" {
+		n = 150000
+	}
+	for i := 0; i < n; i++ {
+		emitRoundTrip(cw, []byte(g.ws()+g.object(0)+g.ws()), true)
+	}
+}
+
+// emitAccept: accept/reject of one line (C16).
+//
+//	accept \t C16 \t <ti> \t <hex line> \t <ext> \t <impl: ok | err class> rownil=<0|1> agree=<0|1> \t govalid=<0|1>
+func emitAccept(cw *caseWriter, ti []colDesc, line []byte, nontrivial bool) {
+	tmpl := buildTemplate(ti)
+	var row jsonline.Row
+	var err error
+	pan := guard(func() {
+		imp := tmpl.GetImporter(bytes.NewReader(append(append([]byte{}, line...), '\n')))
+		if imp.Import() {
+			row, err = imp.GetRow()
+		} else {
+			// an empty line is not delivered as a token only if the input is empty; ScanLines delivers "" for "\n"
+			err = fmt.Errorf("no line scanned")
+		}
+	})
+	// the two other entry points must agree on accept/reject
+	var e2, e3 error
+	guard(func() { _, e2 = tmpl.CreateRow(string(line)) })
+	guard(func() { e3 = tmpl.CreateRowEmpty().UnmarshalJSON(line) })
+	agree := (err == nil) == (e2 == nil) && (err == nil) == (e3 == nil)
+	impl := "ok"
+	if pan != "" {
+		impl = "panic"
+	} else if err != nil {
+		c := classify(err)
+		if c == "other" {
+			c = "syntax"
+		}
+		impl = "err " + c
+	}
+	rownil := 0
+	if row == nil {
+		rownil = 1
+	}
+	ag := 0
+	if agree {
+		ag = 1
+	}
+	gv := 0
+	trimmed := bytes.TrimLeft(line, " \t\r\n")
+	if json.Valid(line) && len(trimmed) > 0 && trimmed[0] == '{' {
+		gv = 1
+	}
+	ext := map[string]string{}
+	extForJSON(line, ext)
+	cw.count("accept:" + strings.SplitN(impl, " ", 2)[0] + fmt.Sprintf(":valid%d", gv))
+	cw.emit("accept "+descStr(ti)+" "+string(line), nontrivial, "accept", "C16", descStr(ti), hxs(string(line)), extStr(ext),
+		fmt.Sprintf("%s rownil=%d agree=%d", impl, rownil, ag), fmt.Sprintf("govalid=%d", gv))
+}
+
+func genC16(cw *caseWriter, seed uint64, tier string) {
+	r := newRng(seed)
+	g := &jgen{r: r, depth: 3}
+	hand := []string{``, ` `, `{}`, ` {} `, `{} x`, `{}{}`, `{}[]`, `{},`, `[{}]`, `[1]`, `1`, `"x"`, `null`, `true`, `{`, `}`, `{"a"`, `{"a":`, `{"a":1`, `{"a":1,`, `{"a":1,}`, `{,}`, `{"a" 1}`, `{"a":1 "b":2}`,
+		`{'a':1}`, `{a:1}`, `{"a":01}`, `{"a":1.}`, `{"a":.5}`, `{"a":+1}`, `{"a":-}`, `{"a":1e}`, `{"a":1e+}`, `{"a":tru}`, `{"a":nul}`, `{"a":truex}`, `{"a":[1,]}`, `{"a":[1 2]}`, `{"a":[}`, `{"a":]}`,
+		`{"a":{}}}`, `{"a":"\x"}`, `{"a":"\u12"}`, `{"a":"\u12G4"}`, "{\"a\":\"\x01\"}", "{\"a\":\"\n\"}", "\xef\xbb\xbf{}", "{}\x00", "{\"a\":1}\x00", "\x00{}", `{"a":"unterminated}`, `{"a":1}}`, `{{}}`, `{"a":{"b":1}`,
+		`{"a":1}//c`, `{"a":1}/**/`, `{"a":NaN}`, `{"a":Infinity}`, `{"a":0x10}`, `{"a":1_000}`, `{"a":"\ud800"}`, "{\"a\":\"\xff\"}", `{"a":"\/"}`, `{"a":"\'"}`, `{"\u0061":1}`, "{\t\"a\"\t:\t1\t}", "{\r\"a\":1}", "{\"a\":1}\r",
+		"{\"a\"\x0b:1}", "{\"a\":1}\x0c", "{\xa0}", `{"a":1,"a":2}`, `{"":1}`, `{"a":[[[[[[[[[[1]]]]]]]]]]}`, `{"a":-0}`, `{"a":-01}`, `{"a":1E400}`, `{"a":"` + strings.Repeat("x", 70000) + `"}`}
+	for _, h := range hand {
+		emitAccept(cw, nil, []byte(h), true)
+	}
+	// declared columns that convert / do not convert
+	typed := []colDesc{{name: "a", format: "numeric", ty: "int"}, {name: "d", format: "date", ty: "none"}}
+	for _, h := range []string{`{"a":1}`, `{"a":"x"}`, `{"a":1.5}`, `{"a":null}`, `{"d":"2021-09-24"}`, `{"d":"nope"}`, `{"a":1,"d":"2021-09-24","z":[]}`, `{"a":"x"} trailing`, `{"a":1} trailing`, `{"z":1,"a":"x"}`} {
+		emitAccept(cw, typed, []byte(h), true)
+	}
+	n := 4000
+	if tier == "thorough" {
+		n = 150000
+	}
+	alpha := []byte("{}[],:\"\\01-.eEtfn u\t\x00\x01\x7f\xff\xc3\xa9/+aunl")
+	for i := 0; i < n; i++ {
+		base := []byte(g.object(0))
+		emitAccept(cw, nil, base, false)
+		// truncations at a random offset, 1-3 byte mutations
+		if len(base) > 0 {
+			emitAccept(cw, nil, base[:r.intn(len(base))], true)
+		}
+		m := append([]byte{}, base...)
+		for k := 1 + r.intn(3); k > 0 && len(m) > 0; k-- {
+			pos := r.intn(len(m))
+			switch r.intn(3) {
+			case 0:
+				m[pos] = alpha[r.intn(len(alpha))]
+			case 1:
+				m = append(m[:pos], m[pos+1:]...)
+			default:
+				m = append(m[:pos], append([]byte{alpha[r.intn(len(alpha))]}, m[pos:]...)...)
+			}
+		}
+		m = bytes.ReplaceAll(m, []byte("\n"), []byte(" "))
+		emitAccept(cw, nil, m, true)
+		if r.chance(1, 10) {
+			emitAccept(cw, nil, append(append([]byte{}, base...), []byte(pick(r, []string{" x", "{}", ",", "]", "}", " 1", "\t\t", " null"}))...), true)
+		}
+	}
+	if tier != "thorough" {
+		return
+	}
+	// all strings of length <= 5 over the structural alphabet (thorough)
+	sa := []byte("{}[],:\"\\01-.et ")
+	var rec func(prefix []byte, left int)
+	rec = func(prefix []byte, left int) {
+		emitAccept(cw, nil, prefix, true)
+		if left == 0 {
+			return
+		}
+		for _, c := range sa {
+			rec(append(append([]byte{}, prefix...), c), left-1)
+		}
+	}
+	rec(nil, 5)
+	cw.extra["exhaustive_structural_strings_up_to_length"] = 5
+}
